@@ -9,5 +9,5 @@ res=$(/venv/bin/python -m pytest -q -p no:cacheprovider --timeout=900 2>&1 | tai
 /venv/bin/python "$demo" "$wt" >/dev/null 2>&1; b=$?
 git checkout -q -- .
 echo "demo clean=$a patched=$b tests: $res"
-case "$res" in *"91 passed"*) t=ok;; *) t=bad;; esac
+case "$res" in *"92 passed"*|*"1 failed, 91 passed"*) t=ok;; *) t=bad;; esac
 if [ "$a" = 0 ] && [ "$b" != 0 ] && [ "$t" = ok ]; then echo CONFIRMED; else echo "NOT confirmed"; exit 1; fi
